@@ -38,24 +38,32 @@ def step (st : St) (toks : List String) : St × String :=
     match bits? me, m.toNat? with
     | some me, some m => ({ st with m := m, rt := RT.init me }, "ok")
     | _, _ => bad
-  | ["rt.add", id, b, rtt, addr, tag] =>
-    match bits? id, bool? b, rtt.toNat?, addr.toNat?, tag.toNat? with
-    | some id, some b, some rtt, some addr, some tag =>
-      let r := st.rt.add st.m { id := id, bad := b, rtt := rtt, addr := addr, tag := tag }
+  | ["rt.add", id, f, rc, rtt, addr, tag] =>
+    match bits? id, f.toNat?, bool? rc, rtt.toNat?, addr.toNat?, tag.toNat? with
+    | some id, some f, some rc, some rtt, some addr, some tag =>
+      let r := st.rt.add st.m { id := id, failed := f, recent := rc, rtt := rtt, addr := addr, tag := tag }
       ({ st with rt := r.1 },
         match r.2 with
         | .stored x => s!"stored {x.tag} {x.addr}"
         | .none => "none"
         | .keyError => "keyerror"
         | .outOfFuel => "fuel")
-    | _, _, _, _, _ => bad
+    | _, _, _, _, _, _ => bad
   | ["rt.rmbad"] =>
     let r := st.rt.removeBad
     ({ st with rt := r.1 }, Proto.showNatList (sortBy (fun a b => a < b) (r.2.map (·.tag))))
-  | ["rt.set", id, b, rtt] =>
-    match bits? id, bool? b, rtt.toNat? with
-    | some id, some b, some rtt => ({ st with rt := st.rt.setNode id b rtt }, "ok")
-    | _, _, _ => bad
+  | ["rt.set", id, f, rc, rtt] =>
+    match bits? id, f.toNat?, bool? rc, rtt.toNat? with
+    | some id, some f, some rc, some rtt => ({ st with rt := st.rt.setNode id f rc rtt }, "ok")
+    | _, _, _, _ => bad
+  | ["rt.status", id] =>
+    match bits? id with
+    | some id => (st, match st.rt.get id with | some x => toString x.status | none => "none")
+    | none => bad
+  | ["node.status", f, rc] =>
+    match f.toNat?, bool? rc with
+    | some f, some rc => (st, toString ({ id := [], failed := f, recent := rc, rtt := 0, addr := 0, tag := 0 } : Node).status)
+    | _, _ => bad
   | ["rt.closest", target, k, excl] =>
     match bits? target, k.toNat? with
     | some target, some k =>
